@@ -20,7 +20,7 @@ META = {
     "encoded": ["csr.reg.Builder.__init__", "csr.reg.Builder.add", "csr.reg.Builder.Cluster", "csr.reg.Builder.Index",
                 "csr.reg.Builder.freeze", "csr.reg.Builder.as_memory_map", "memory.MemoryMap.add_resource",
                 "memory.MemoryMap._compute_addr_range", "memory._RangeMap.insert/overlaps"],
-    "also": 'address widths 12/16; a second builder used while scopes of the first are open; nested scope programs with registers added after an inner block closed and scope values repeated along a path; as_memory_map() repeated after a rejection',
+    "also": 'address widths 12/16; a second builder used while scopes of the first are open; nested scope programs with registers added after an inner block closed and scope values repeated along a path, scope objects created some time before they are entered; as_memory_map() repeated after a rejection',
     "bounds": "geometry (addr width 3-6, data width 8/16/32, granularity dividing it); sequences of 2-3 (thorough "
               "2-4) additions of real registers with widths in {0,1,dw,dw+1,2dw+1,4dw}, each at an implicit or a "
               "SYMBOLIC explicit offset in [0, 2^aw * dw/g + 2], inside Cluster/Index scopes from a small grammar, "
@@ -74,10 +74,12 @@ def configs(tier, seed):
     for prog in ([S(("i", 0), S(("c", "ch"), S(("i", 0), A(0)), A(1)), A(2))],
                  [S(("c", "a"), S(("c", "b"), S(("c", "a"), A(0)), A(1))), A(2)],
                  [S(("i", 1), S(("i", 1), A(0)), A(1), S(("i", 1), S(("i", 0), A(2))))],
-                 [S(("i", 0), A(0)), S(("c", "0"), A(1)), A(2)]):
+                 [S(("i", 0), A(0)), S(("c", "0"), A(1)), A(2)],
+                 [dict(S(("c", "blk"), A(1)), before=[A(0)]), A(2)],
+                 [S(("c", "x"), dict(S(("i", 1), A(1)), before=[A(0)])), A(2)]):
         for aw, dw, g in ((4, 8, 8), (5, 32, 8)):
             out.append({"aw": aw, "dw": dw, "g": g, "late": False, "prog": prog,
-                        "adds": [{"w": w, "off": False, "scope": 0, "name": "ctrl" if prog[0]["body"] == [A(0)] and i < 2 else f"r{i}",
+                        "adds": [{"w": w, "off": False, "scope": 0, "name": "ctrl" if prog[0]["body"] == [A(0)] and not prog[0].get("before") and i < 2 else f"r{i}",
                                   "bad_first": None}
                                  for i, w in enumerate((dw, 1, 2 * dw + 1))]})
     return out
@@ -116,7 +118,11 @@ def harness_for(cfg):
             for it in items:
                 if "add" not in it:
                     kind, val = it["scope"]
-                    with (b.Cluster(val) if kind == "c" else b.Index(val)):
+                    # the scope object may be created some time before it is entered ("before": what happens in between,
+                    # outside the scope)
+                    cm = b.Cluster(val) if kind == "c" else b.Index(val)
+                    run(it.get("before", []))
+                    with cm:
                         stack.append(val)
                         run(it["body"])
                         stack.pop()
